@@ -4,8 +4,8 @@ import ast
 from ..model import AnalysisError, FUNC_TYPES, U, call_name, const_str, walk_body, short, literal
 from ..rx import Regex, Unsupported, finite_language, template_parts
 
-PRE = ["", " ", "=", "(", "/", ":", "'", "\t", ","]
-POST = ["", " ", ")", "/", ":", "'", ",", ";"]
+PRE = ["", " ", "=", "(", "/", ":", "'", "\t", ",", "-", "."]
+POST = ["", " ", ")", "/", ":", "'", ",", ";", "-", "."]
 
 
 def _attr_const(cx, mod, cls, attr):
@@ -21,6 +21,32 @@ def _attr_const(cx, mod, cls, attr):
     raise AnalysisError("C08.R5", "no assignment to self.%s in %s.__init__" % (attr, cls))
 
 
+def _boundary_assertions_only(tree):
+    """Look-arounds occur only as the first / last items of the top-level sequence and assert a single character (class)."""
+    items = list(tree)
+    def is_assert(it):
+        return str(it[0]) in ("ASSERT", "ASSERT_NOT")
+    def single_char(it):
+        sub = list(it[1][1])
+        return len(sub) == 1 and str(sub[0][0]) in ("IN", "LITERAL", "NOT_LITERAL", "CATEGORY")
+    def contains_assert(x):
+        if isinstance(x, (list, tuple)):
+            return any(contains_assert(y) for y in x)
+        if hasattr(x, "data"):
+            return any(contains_assert(y) for y in x.data)
+        return str(x) in ("ASSERT", "ASSERT_NOT")
+    i, j = 0, len(items)
+    while i < j and is_assert(items[i]):
+        if not single_char(items[i]):
+            return False
+        i += 1
+    while j > i and is_assert(items[j - 1]):
+        if not single_char(items[j - 1]):
+            return False
+        j -= 1
+    return not any(contains_assert(list(it[1:])) for it in items[i:j])
+
+
 def _ipv4(cx, thorough):
     m = cx.repo.module("insights.cleaner.ip")
     node, pat = _attr_const(cx, m, "IPv4", "pattern")
@@ -33,12 +59,15 @@ def _ipv4(cx, thorough):
         cx.bad(node, "IPv4 pattern is a valid regular expression", construct="%r" % e)
         return
     allowed = set(["LITERAL", "IN", "BRANCH", "SUBPATTERN", "MAX_REPEAT", "AT"])
-    if not R.ops <= allowed:
-        cx.unknown(node, "IPv4 pattern uses %s: the octet-wise independence argument needs a pattern without look-around / back-references" % sorted(R.ops - allowed))
+    extra_ops = R.ops - allowed
+    if extra_ops <= set(["ASSERT", "ASSERT_NOT", "NEGATE", "CATEGORY", "RANGE", "NOT_LITERAL"]) and _boundary_assertions_only(R.tree):
+        extra_ops = set()      # a one-character look-around at either end is a delimiter rule: covered by the context enumeration, octets stay independent
+    if extra_ops:
+        cx.unknown(node, "IPv4 pattern uses %s: the octet-wise independence argument needs a pattern without inner look-around / back-references" % sorted(extra_ops))
         return
     fillers = ["45", "7", "123", "255", "0"] if thorough else ["45", "200"]
-    pres = PRE if thorough else ["", " ", "="]
-    posts = POST if thorough else ["", " ", ":"]
+    pres = PRE if thorough else ["", " ", "=", "."]
+    posts = POST if thorough else ["", " ", ":", "."]
     n = 0
     fails = []
 
